@@ -224,6 +224,15 @@ type RuleSpec struct {
 	C int `json:"c"` // index into ruleCounts
 }
 
+// store limit requests: POST /store/1/limit[?ttlSecond=N] {"rate":R,"type":T}; TTL > 0 = a temporary override
+// (what BR / lightning install), which is no configuration change
+var storeLimitReqs = []struct {
+	Type string
+	Rate float64
+	TTL  int
+}{{"add-peer", 20, 0}, {"remove-peer", 33, 0}, {"add-peer", 7.5, 0}, {"remove-peer", 90, 0},
+	{"add-peer", 200, 60}, {"remove-peer", 150, 60}, {"add-peer", 0, 0}, {"remove-peer", -3, 0}, {"bogus", 10, 0}}
+
 var (
 	ruleTargets = [][2]string{{"pd", "default"}, {"pd", "r2"}, {"g2", "x"}}
 	ruleCounts  = []int{-1, 0, 1, 3, 5, -999} // -999 = the max-replicas currently served
@@ -277,8 +286,10 @@ type Case struct {
 func genOp(t *rapid.T) Op {
 	var op Op
 	op.Kind = rapid.SampledFrom([]string{"schedule", "schedule", "schedule", "replication", "replication", "replication",
-		"pdserver", "pdserver", "replmode", "labelset", "labelset", "labeldel", "labeldel", "labelcfg", "version", "rule", "rule", "rules"}).Draw(t, "kind")
+		"pdserver", "pdserver", "replmode", "labelset", "labelset", "labeldel", "labeldel", "labelcfg", "version", "rule", "rule", "rules", "storelimit", "storelimit"}).Draw(t, "kind")
 	switch op.Kind {
+	case "storelimit":
+		op.P = rapid.IntRange(0, len(storeLimitReqs)-1).Draw(t, "p")
 	case "rule", "rules":
 		n := 1
 		if op.Kind == "rules" {
@@ -832,7 +843,7 @@ func runOnce(c Case) (vkit.Info, error) {
 	fx.ClusterGateAll(func(kind, key string) error {
 		// the handler runs on its own goroutine: while a rule request is in flight every write to the rule keys
 		// of the cluster storage takes part in the numbering (no background goroutine writes rules)
-		if atomic.LoadInt32(&ruleActive) == 1 && (kind == "save" || kind == "remove") && strings.HasPrefix(key, "rule") {
+		if atomic.LoadInt32(&ruleActive) == 1 && (kind == "save" || kind == "remove") && (strings.HasPrefix(key, "rule") || key == "config") {
 			return of.write("cluster")
 		}
 		return nil
@@ -995,7 +1006,104 @@ func runOnce(c Case) (vkit.Info, error) {
 		}
 		return nil
 	}
+	// ---- store limits: POST /store/1/limit. The persistent form changes schedule.store-limit through
+	// RaftCluster.SetStoreLimit, which persists the options to the CLUSTER's storage; the TTL form installs a
+	// temporary override that must not leak into the configuration.
+	doStoreLimit := func(step int, op Op) error {
+		rq := storeLimitReqs[op.P]
+		path := "/store/1/limit"
+		if rq.TTL > 0 {
+			path += fmt.Sprintf("?ttlSecond=%d", rq.TTL)
+		}
+		body := mustJSON(map[string]interface{}{"rate": rq.Rate, "type": rq.Type})
+		where := fmt.Sprintf("step %d POST %s %s", step, path, body)
+		before := served(fx)
+		exec := func() error {
+			atomic.StoreInt32(&ruleActive, 1)
+			defer atomic.StoreInt32(&ruleActive, 0)
+			return post(fx, path, body)
+		}
+		if op.Faults && rq.TTL == 0 {
+			for n := 1; n <= 8; n++ {
+				of.arm(n)
+				err := exec()
+				hit, on := of.hit()
+				of.arm(0)
+				if !hit {
+					break
+				}
+				failed++
+				classes["failed-"+on+"-write:storelimit"] = true
+				if err == nil {
+					return vkit.Errf("%s: write %d of the request failed but the request was answered with success", where, n)
+				}
+				if d := diffSnap(before, served(fx)); d != "" {
+					return vkit.Errf("%s failed at its write %d (%v) but the served configuration changed: %s", where, n, err, d)
+				}
+			}
+			before = served(fx)
+		}
+		of.arm(0)
+		err := exec()
+		after := served(fx)
+		if err != nil {
+			if strings.HasPrefix(err.Error(), "http transport") {
+				return fmt.Errorf("harness: %s: %v", where, err)
+			}
+			rejected++
+			classes["rejected:storelimit"] = true
+			if d := diffSnap(before, after); d != "" {
+				return vkit.Errf("%s was answered with an error (%v) but the served configuration changed: %s", where, err, d)
+			}
+			return nil
+		}
+		if rq.TTL > 0 {
+			classes["storelimit-ttl-override"] = true
+			if d := diffSnap(before, after); d != "" {
+				return vkit.Errf("%s installed a temporary store limit and the served configuration changed: %s", where, d)
+			}
+			return nil
+		}
+		accepted++
+		classes["accepted:storelimit"] = true
+		if rq.Rate <= 0 {
+			return vkit.Errf("%s was accepted although the rate is not positive", where)
+		}
+		for i := 1; i < len(after); i++ {
+			if after[i] != before[i] {
+				return vkit.Errf("%s accepted and changed another section, %s: %s => %s", where, sectionNames[i], before[i], after[i])
+			}
+		}
+		lim := fx.Svr.GetScheduleConfig().StoreLimit[1]
+		got := lim.AddPeer
+		if rq.Type == "remove-peer" {
+			got = lim.RemovePeer
+		}
+		if got != rq.Rate {
+			return vkit.Errf("%s accepted but schedule.store-limit[1] is %+v", where, lim)
+		}
+		// durable: this setter persists to the cluster storage
+		re, rerr := reloadedFrom(fx.ClusterBase())
+		if rerr != nil {
+			return vkit.Errf("%s accepted; %v", where, rerr)
+		}
+		if d := diffSnap(normalise(fx), re); d != "" {
+			return vkit.Errf("%s accepted but a fresh Reload from the cluster storage differs from the served configuration (served, normalised => reloaded): %s", where, d)
+		}
+		// harness: the other setters persist to the per-case configuration storage; bring it in step with what
+		// is served now so that their "Reload == served" checks keep their meaning
+		if e := fx.Svr.GetPersistOptions().Persist(core.NewStorage(w.Base())); e != nil {
+			return fmt.Errorf("harness: %v", e)
+		}
+		return nil
+	}
 	for step, op := range c.Ops {
+		if op.Kind == "storelimit" {
+			if err := doStoreLimit(step, op); err != nil {
+				return info, err
+			}
+			continue
+		}
 		if op.Kind == "rule" || op.Kind == "rules" {
 			if err := doRule(step, op); err != nil {
 				return info, err
@@ -1368,8 +1476,8 @@ func genStart(t *rapid.T) StartCase {
 	plain := func() Op {
 		op := genOp(t)
 		op.Faults = false
-		if op.Kind == "rule" || op.Kind == "rules" {
-			op = Op{Kind: "replication", P: 0} // rule requests belong to the config family
+		if op.Kind == "rule" || op.Kind == "rules" || op.Kind == "storelimit" {
+			op = Op{Kind: "replication", P: 0} // rule and store-limit requests belong to the config family
 		}
 		return op
 	}
